@@ -78,6 +78,9 @@ var c04Pool = []kval{
 	{"k_nhtm", func() interface{} { var p *htmler; return p }},               // typed nil pointer implementing HTMLer by value
 	{"k_nids", func() interface{} { var p *IDList; return p }},               // typed nil pointer to a named slice type with a value-receiver method
 	{"k_ids", func() interface{} { return &IDList{1, 2} }},
+	{"k_embid", func() interface{} { return WithNilEmbeddedID{} }},           // embeds a nil pointer whose type has ID / Slug fields (pathFor)
+	{"k_fnhc", func() interface{} { return func(h NamedHelperContext) string { return "hc" } }}, // parameter convertible to, but not assignable from, plush.HelperContext
+	{"k_fnhc2", func() interface{} { return func(s string, m map[string]interface{}, h NamedHelperContext) string { return s } }},
 }
 
 // expression-produced kinds (cannot be injected as data)
@@ -104,7 +107,7 @@ func c04Context() *plush.Context {
 	return c
 }
 
-const c04Prelude = `<% let uf = fn(a) { return a } %>`
+const c04Prelude = `<% let uf = fn(a) { return a } %><% let apd = k_sl + 1 %>`
 
 func c04Atoms() []string {
 	var a []string
@@ -160,7 +163,7 @@ func init() {
 			return s
 		},
 		Run:  c04Run,
-		Rule: "matrices over a pool of 56 injected value kinds (nil, bools, every int/uint/float width, strings, HTML, slices/arrays/pointers to them, maps of 5 key/value typings, nil map/slice/pointer/func, struct, funcs incl. variadic, iterator, chan, time, error) plus 11 expression-produced kinds (user function object, its call, slice+x, array/hash literal, literals, unknown identifier): (operator x L x R), !L / if(L) / emission / silent statement, L[I] (+ .Field/.Method tails), L[I]=V (all triples), member and method access incl. nil receivers, for over L, L(args<=3), user functions with p params x a args (0..4), and every built-in helper taken from plush.Helpers at run time x argument lists of length <=2 (+block, +options map). Oracle: (out,nil) or (\"\",err); no panic, no step-budget exhaustion, no worker crash. All cases are non-trivial (each is a distinct kind combination).",
+		Rule: "matrices over a pool of 59 injected value kinds (nil, bools, every int/uint/float width, strings, HTML, slices/arrays/pointers to them, maps of 5 key/value typings, nil map/slice/pointer/func, struct, funcs incl. variadic, iterator, chan, time, error) plus 11 expression-produced kinds (user function object, its call, slice+x, array/hash literal, literals, unknown identifier): (operator x L x R), !L / if(L) / emission / silent statement, L[I] (+ .Field/.Method tails), L[I]=V (all triples), member and method access incl. nil receivers, for over L, L(args<=3), user functions with p params x a args (0..4), and every built-in helper taken from plush.Helpers at run time x argument lists of length <=2 (+block, +options map). Oracle: (out,nil) or (\"\",err); no panic, no step-budget exhaustion, no worker crash. All cases are non-trivial (each is a distinct kind combination).",
 		Bound: func(th bool) string {
 			if th {
 				return "all matrices complete; plus one level of nesting (L op R) op' X for every operator pair over the pool"
@@ -229,6 +232,12 @@ func c04Run(t *engine.T, shard string) {
 	case "member":
 		members := []string{"X", "Name", "Kid", "NilKid", "Kids", "hidden", "Missing", "Hello", "PtrHello", "Kid.Name", "NilKid.Name", "Kid.Kid.Name", "Kids.Name", "Attrs.k"}
 		calls := []string{"Hello()", "PtrHello()", "Add(1)", "Add()", "Add(k_s)", "Add(1, 2)", "Missing()", "hidden()", "Name()", "Self().Name", "Self().Hello()", "Fail()", "GetKids()[0].Name", "Kid.Hello()", "NilKid.Hello()", "NilKid.PtrHello()", "Len()", "Next()", "Error()", "String()", "Unix()", "Count()", "HTML()"}
+		for _, m := range []string{"Index(5)", "Index(0)", "Elem()", "Len()", "Interface()", "IsNil()", "Field(0)", "Name", "Kind()"} {
+			// the result of slice + x: must not expose reflect.Value's own (panicking) methods
+			c04Case(t, "appended-slice-method", P+`<%= apd.`+m+` %>`)
+			c04Case(t, "appended-slice-method", P+`<%= (k_ss + "z").`+m+` %>`)
+		}
+		c04Case(t, "appended-slice", P+`<%= apd %>|<%= apd + 2 %>|<%= len(apd) %>|<%= apd[2] %>|<%= for (v) in apd { %><%= v %><% } %>`)
 		for _, l := range c04Pool {
 			for _, m := range members {
 				c04Case(t, "member", P+`<%= `+l.name+`.`+m+` %>`)
